@@ -74,6 +74,9 @@ type View struct {
 	// (ordinal -> pod). Adopted: subset that was adopted in this reconcile.
 	Claimed  map[int]*v1.Pod
 	Adopted  map[string]bool
+	// Orphans: unowned, live, matching, well-named pods of the snapshot whose adoption did not go through and was not
+	// answered NotFound (then the pod is gone and the ordinal vacant): they hold their ordinal all the same
+	Orphans map[int]*v1.Pod
 	Released map[string]bool
 	// revisions visible to the set before the reconcile, by name
 	Revs map[string]*appsv1.ControllerRevision
@@ -214,7 +217,12 @@ func NewView(rec *world.Rec) *View {
 		}
 	}
 	// adoption / release patches that succeeded in this reconcile
+	adoptGone := map[string]bool{}
+	v.Orphans = map[int]*v1.Pod{}
 	for _, c := range rec.Calls {
+		if c.Verb == "patch" && c.Resource == "pods" && !c.Applied && (c.Err == "NotFound" || strings.Contains(c.Err, "not found")) {
+			adoptGone[c.Name] = true
+		}
 		if c.Verb == "patch" && c.Resource == "pods" && c.Applied {
 			if strings.Contains(c.Patch, `"$patch":"delete"`) {
 				v.Released[c.Name] = true
@@ -235,6 +243,8 @@ func NewView(rec *world.Rec) *View {
 			v.Claimed[ord] = p
 		case ref == nil && v.Adopted[p.Name]:
 			v.Claimed[ord] = p
+		case ref == nil && p.DeletionTimestamp == nil && !adoptGone[p.Name]:
+			v.Orphans[ord] = p
 		}
 	}
 	// revisions
